@@ -1134,7 +1134,13 @@ func (e *bEngine) doCall(st *bState, fr *bFrame, ci ssa.CallInstruction) {
 			setRes(freshRes("closure"))
 			return
 		default:
-			e.unknownCall(st, "function value", at)
+			if e.callbackPure != "" {
+				// `callback <reason>`: a function value supplied by the user is ASSUMED to work on its own
+				// arguments only (the contract says why); recorded as an assumption of the check
+				e.note("ASSUMED (callback): a user-supplied function value does not touch polynomial storage: " + e.callbackPure)
+			} else {
+				e.unknownCall(st, "function value", at)
+			}
 			setRes(freshRes("dyncall"))
 			return
 		}
@@ -1418,6 +1424,7 @@ func (e *bEngine) verify(caseSpec string) {
 	e.safety = len(con.Raw["safety"]) > 0
 	e.nilable = len(con.Raw["nilable"]) > 0
 	e.nilsafe = len(con.Raw["nilsafe"]) > 0
+	e.callbackPure = strings.Join(con.Raw["callback"], " ")
 	e.allocMax = pow2(32)
 	for _, s := range con.Raw["safety"] {
 		// safety allocmax=<n>: the largest element count a single make may be asked for
@@ -1468,6 +1475,23 @@ func (e *bEngine) verify(caseSpec string) {
 			}
 			lx, err1 := parser.ParseExpr(strings.TrimSpace(kv[0]))
 			rx, err2 := parser.ParseExpr(strings.TrimSpace(kv[1]))
+			// set <param> = nil : a pointer (slice, interface) parameter is nil in this case
+			if pid, ok := lx.(*ast.Ident); ok && err1 == nil && err2 == nil {
+				rid, isNil := rx.(*ast.Ident)
+				done := false
+				for j, p := range fn.Params {
+					if p.Name() == pid.Name && isNil && rid.Name == "nil" {
+						v := e.zeroVal(p.Type())
+						bind[p.Name()] = v
+						args[j] = v
+						done = true
+					}
+				}
+				if !done {
+					panic(verr("%s: bad set clause %q (a parameter can only be set to nil)", con.File, part))
+				}
+				continue
+			}
 			sel, isSel := lx.(*ast.SelectorExpr)
 			if err1 != nil || err2 != nil || !isSel {
 				panic(verr("%s: bad set clause %q", con.File, part))
